@@ -155,14 +155,11 @@ class ModbusSocketFramer(ModbusFramer):
                         _logger.debug("Not a valid unit id - {}, "
                                       "ignoring!!".format(self._header['uid']))
                         self.resetFrame()
-                else:
-                    _logger.debug("Frame check failed, ignoring!!")
-                    self.resetFrame()
+                elif self._header['len'] >= 2:
+                    # frame is incomplete: keep it and wait for the rest
+                    break
             else:
-                if len(self._buffer):
-                    # Possible error ???
-                    if self._header['len'] < 2:
-                        self._process(callback, error=True)
+                # header is incomplete: keep it and wait for the rest
                 break
 
     def _process(self, callback, error=False):
